@@ -30,7 +30,7 @@ const (
 	Desc  = "Gregorian"
 	Epoch = 1721426
 
-	MinMonthLen uint8 = 29
+	MinMonthLen uint8 = 28
 	MaxMonthLen uint8 = 31
 
 	AvgYearLen = 365.2425 // FIXME
